@@ -203,18 +203,22 @@ pub fn run<S: Scheme>(scn: &Scenario, log: &EventLog) -> RunResult {
     let lc_perm = 0;
 
     // honest run of replica B to read the opening challenges off its trace
+    let mut public_factors: Vec<S::F> = vec![];
     let honest_sq: Vec<Vec<u8>> = {
         let mut sp = sess.verifier.sponge.fork();
         sp.squeezed_fe.borrow_mut().clear();
         let mut rng = SimRng::new(scn.seed, "verifier-B", 0);
         let _ = Sess::<S>::check_with(&sess.verifier.vk, &sess.verifier.comms, &claim, &mut sp, &mut rng, lc_perm);
         let v = sp.squeezed_fe.borrow().clone();
+        // anything the verifier squeezed from copies of the public sponge is public as well
+        public_factors = sp.clone_sq.borrow().iter().filter_map(|b| S::F::deserialize_compressed(&b[..]).ok()).filter(|x| !x.is_zero()).take(8).collect();
         v
     };
 
     // the fault-free transcript is itself a case: all-true batch accepted by both replicas
     let mut cases: Vec<(Fault, Claim<S>, bool)> = vec![(Fault { kind: "none".into(), ..Default::default() }, claim.clone(), false)];
     for f in scn.faults.iter() {
+        let mut extra_cases: Vec<(Fault, Claim<S>, bool)> = vec![];
         let mut bad = claim.clone();
         let n = n_positions(op);
         let mut any_false = false;
@@ -267,6 +271,20 @@ pub fn run<S: Scheme>(scn: &Scenario, log: &EventLog) -> RunResult {
                             let e = delta(1);
                             any_false = true;
                             res.stats.probe("cancel-across:challenge-aware");
+                            // the same with every public factor on either side (batching coefficients
+                            // derived from public transcript data instead of the verifier's coins)
+                            let mut fs = vec![S::F::from(1u64)];
+                            fs.extend(public_factors.iter().copied());
+                            for (ia, fa) in fs.iter().enumerate() {
+                                for (ib, fb) in fs.iter().enumerate() {
+                                    if ia == 0 && ib == 0 { continue; }
+                                    let mut b2 = claim.clone();
+                                    if falsify(&mut b2, f.target, e * (xa * fa).inverse().unwrap()) && falsify(&mut b2, f.aux, -e * (xb * fb).inverse().unwrap()) {
+                                        res.stats.probe("cancel-across:public-factor");
+                                        extra_cases.push((f.clone(), b2, true));
+                                    }
+                                }
+                            }
                             falsify(&mut bad, f.target, e * xa.inverse().unwrap()) && falsify(&mut bad, f.aux, -e * xb.inverse().unwrap())
                         }
                         _ => {
@@ -302,6 +320,7 @@ pub fn run<S: Scheme>(scn: &Scenario, log: &EventLog) -> RunResult {
         }
         res.stats.fire(&f.kind);
         cases.push((f.clone(), bad, any_false));
+        cases.append(&mut extra_cases);
     }
 
     for (ci, (f, c, any_false)) in cases.iter().enumerate() {
